@@ -122,8 +122,20 @@ Next == /\ ok /\ lvl < MaxLvl
 Spec == Init /\ [][Next]_vars
 
 ---------------------------------------------------------------------------
+\* exact linear-algebra facts of a square tree (determinant, inverse, definiteness) for C06/C07/C08/C11
+LinalgOut ==
+    LET d == Denote(t)
+        dn == DetN(d)
+        \* the inverse is only formed when |det|^2 and det * adjugate fit comfortably in 32 bits
+        nz == dn # CZ /\ Abs(dn[1]) <= 2000 /\ Abs(dn[2]) <= 2000 /\ d.d <= 8
+    IN [t |-> t, wf |-> TRUE, dense |-> d, dt |-> DTypeOf(t), lvl |-> lvl,
+        true_anns |-> TrueAnns(d), infer |-> IF CtorOnly(t) THEN Infer(t) ELSE {},
+        det |-> Det(d), singular |-> (dn = CZ), nonsing |-> nz, pd |-> IsPD(d),
+        inv |-> IF nz THEN MInverse(d) ELSE Zero(1, 1)]
+
 Out == IF WellFormed(t)
-       THEN IF "anns" \in Acts
+       THEN IF "linalg" \in Acts /\ ShapeOf(t)[1] = ShapeOf(t)[2] /\ ShapeOf(t)[1] <= 4 THEN LinalgOut
+            ELSE IF "anns" \in Acts
             THEN LET d == Denote(t) IN
                  [t |-> t, wf |-> TRUE, dense |-> d, dt |-> DTypeOf(t), lvl |-> lvl,
                   true_anns |-> TrueAnns(d), ctor |-> CtorOnly(t),
